@@ -3,12 +3,20 @@
 use crate::obs::Ctx;
 
 pub mod c01;
+pub mod c03;
 pub mod c05;
+pub mod c06;
+pub mod c07;
+pub mod c11;
 
 pub fn run(ctx: &mut Ctx) -> bool {
     match ctx.prop.as_str() {
         "C01" => c01::run(ctx),
+        "C03" => c03::run(ctx),
         "C05" => c05::run(ctx),
+        "C06" => c06::run(ctx),
+        "C07" => c07::run(ctx),
+        "C11" => c11::run(ctx),
         _ => return false,
     }
     true
